@@ -76,6 +76,11 @@ CHECKS = {
    text="Edges are solver booleans (every labelled digraph on 3 nodes incl. cycles, every 4-node DAG under 3 insertion orders, bounded 5-node DAGs; thorough: all 4096 4-node digraphs, all 5-node DAGs, bounded 6-node), "
         "node weights symbolic positive integers (mixed time units); the real Graph/TaskGraph/JobGraph routines run on every feasible path and z3 compares them with reference definitions (all source-sink paths enumerated per structure).",
    technique="symbolic execution of the real Python (own z3-backed path explorer), exhaustive small-scope structures with symbolic weights"),
+ "C20": dict(level="translation_validation", design="3/C20", engine="strl2smt",
+   note="Trusted base: z3 (Solver for all-solutions queries, Optimize for optima); g++ 12 -std=c++20 -fno-access-control; the sequential TBB shim /verif/strl/shim (the library is otherwise compiled unchanged from /repo on every run); the driver /verif/strl/strl_driver.cpp that builds trees with the real constructors, runs the real passes and parse(), dumps the SolverModel and feeds variable values back into the real populateResults(); the reference STRL semantics in checks/c20.py.",
+   text="For every tree of a bounded family (2-3 tasks as Max over 1-3 Choose/Allocation/WindowedChoose leaves, combined by Objective / Min / LessThan / Scale with a shared sub-expression, 1-2 partitions, all subsets of the pruning passes, discretisation 1-3) the model emitted by the real C++ compiler is translated to z3 and, over ALL its solutions, "
+        "z3 proves capacity at every instant, Choose exactness, Min/Max/LessThan structure, reported utility == objective; the optimum (z3.Optimize) equals an independent reference optimum and is unchanged by the passes; coarse grids only lose utility. Read-back validated by the real populateResults() on every model used.",
+   technique="all-solutions SMT queries over the optimisation model emitted by the real C++ STRL compiler (rebuilt from source every run); optimum vs independent SMT reference"),
 }
 
 NA_REASON = "check not built yet (build in progress, see DESIGN.md section 5)"
@@ -89,6 +94,8 @@ m = {
  "engines": [
    {"name": "mip2smt", "path": "vlib/mip2smt.py", "serves_properties": sorted(k for k, v in CHECKS.items() if "mip2smt" in v.get("engine", "pysym")),
     "kind_free_text": "captures the Gurobi / CPLEX / z3 model built by the real scheduler inside schedule(), translates it to z3 and asserts properties over all of its solutions; counterexamples are injected back into the real model and read back with the real get_placements()"},
+   {"name": "strl2smt", "path": "checks/c20.py", "serves_properties": ["C20"],
+    "kind_free_text": "builds /repo's C++ STRL library with a sequential TBB shim into a driver (strl/), dumps the SolverModel the real Expression::parse() emits for each tree, translates it to z3; solutions are injected back and read with the real populateResults()"},
    {"name": "pysym", "path": "vlib/pysym.py", "serves_properties": sorted(k for k, v in CHECKS.items() if "pysym" in v.get("engine", "pysym")),
     "kind_free_text": "path-exploring symbolic executor for the repository's real Python functions; SNum/SBool proxies carry linear forms over z3 variables, z3 decides every branch and obligation; DFS with re-execution; process-parallel over worlds and path-prefix subtrees"},
  ],
